@@ -290,18 +290,20 @@ impl Envelope {
         let result: Option<Result<Option<Envelope>>> = signature_objects.iter().find_map(|signature_object| {
             let signature_object_subject = signature_object.subject();
             if signature_object_subject.is_wrapped() {
-                if
-                    let Ok(outer_signature_object) = signature_object.object_for_predicate(
-                        known_values::SIGNED
-                    )
-                {
-                    if let Ok(outer_signature) = outer_signature_object.extract_subject::<Signature>() {
-                        if !signature_object_subject.is_signature_from_key(&outer_signature, key) {
-                            return None;
+                match signature_object.object_for_predicate(known_values::SIGNED) {
+                    Ok(outer_signature_object) => {
+                        if let Ok(outer_signature) = outer_signature_object.extract_subject::<Signature>() {
+                            if !signature_object_subject.is_signature_from_key(&outer_signature, key) {
+                                return None;
+                            }
+                        } else {
+                            return Some(Err(anyhow::anyhow!("Unexpected outer signature object type.")));
                         }
-                    } else {
-                        return Some(Err(anyhow::anyhow!("Unexpected outer signature object type.")));
                     }
+                    // A metadata wrapper that does not carry exactly one outer
+                    // signature is not covered by anybody's signature: it must
+                    // not be accepted (and its metadata returned as verified).
+                    Err(_) => return None,
                 }
 
                 let signature_metadata_envelope = signature_object_subject.unwrap_envelope().unwrap();
